@@ -22,41 +22,66 @@ var allTargets = []target{
 	{"android", "arm64"}, {"js", "wasm"}, {"wasip1", "wasm"},
 }
 
-// matrix runs `go build ./...` (and `go vet` for the 32-bit representative) in
-// /repo for each target.  A failing build is a violation whose replay is the
-// compiler output.
-func matrix(c *Ctx) {
-	repo := os.Getenv("VERIF_REPO")
-	if repo == "" {
-		repo = "/repo"
+type buildRes struct {
+	t   target
+	out string
+	err error
+}
+
+type matrixWork struct {
+	done    chan struct{}
+	results []buildRes
+	vetOut  string
+	vetErr  error
+}
+
+func repoDir() string {
+	if r := os.Getenv("VERIF_REPO"); r != "" {
+		return r
 	}
+	return "/repo"
+}
+
+// matrixStart runs `go build ./...` in /repo for each target (and `go vet` for
+// the 32-bit representative) in the background.
+func matrixStart(thorough bool) *matrixWork {
 	ts := quickTargets
-	if c.Thorough() {
+	if thorough {
 		ts = allTargets
 	}
-	type res struct {
-		t   target
-		out string
-		err error
-	}
-	results := make([]res, len(ts))
-	sem := make(chan struct{}, 4)
-	var wg sync.WaitGroup
-	for i, t := range ts {
-		wg.Add(1)
-		go func(i int, t target) {
-			defer wg.Done()
-			sem <- struct{}{}
-			defer func() { <-sem }()
-			cmd := exec.Command("go", "build", "./...")
-			cmd.Dir = repo
-			cmd.Env = append(os.Environ(), "GOOS="+t.goos, "GOARCH="+t.goarch, "CGO_ENABLED=0")
-			out, err := cmd.CombinedOutput()
-			results[i] = res{t, string(out), err}
-		}(i, t)
-	}
-	wg.Wait()
-	for _, r := range results {
+	w := &matrixWork{done: make(chan struct{}), results: make([]buildRes, len(ts))}
+	go func() {
+		defer close(w.done)
+		sem := make(chan struct{}, 3)
+		var wg sync.WaitGroup
+		for i, t := range ts {
+			wg.Add(1)
+			go func(i int, t target) {
+				defer wg.Done()
+				sem <- struct{}{}
+				defer func() { <-sem }()
+				cmd := exec.Command("go", "build", "./...")
+				cmd.Dir = repoDir()
+				cmd.Env = append(os.Environ(), "GOOS="+t.goos, "GOARCH="+t.goarch, "CGO_ENABLED=0")
+				out, err := cmd.CombinedOutput()
+				w.results[i] = buildRes{t, string(out), err}
+			}(i, t)
+		}
+		wg.Wait()
+		cmd := exec.Command("go", "vet", "./...")
+		cmd.Dir = repoDir()
+		cmd.Env = append(os.Environ(), "GOOS=linux", "GOARCH=386", "CGO_ENABLED=0")
+		out, err := cmd.CombinedOutput()
+		w.vetOut, w.vetErr = string(out), err
+	}()
+	return w
+}
+
+// matrixFinish records the results: a failing build is a violation whose
+// replay is the compiler output.
+func matrixFinish(c *Ctx, w *matrixWork) {
+	<-w.done
+	for _, r := range w.results {
 		name := r.t.goos + "/" + r.t.goarch
 		c.D.Evaluations++
 		if r.err != nil {
@@ -68,25 +93,19 @@ func matrix(c *Ctx) {
 		c.Count("build/ok")
 		c.Nontrivial("build/" + name)
 	}
-	// go vet for one 32-bit and the host target: type-checks the test files too.
-	// vet diagnostics that are not compile errors are recorded, not violations.
-	for _, t := range []target{{"linux", "386"}} {
-		cmd := exec.Command("go", "vet", "./...")
-		cmd.Dir = repo
-		cmd.Env = append(os.Environ(), "GOOS="+t.goos, "GOARCH="+t.goarch, "CGO_ENABLED=0")
-		out, err := cmd.CombinedOutput()
-		c.D.Evaluations++
-		if err != nil {
-			if compileError(string(out)) {
-				c.Violate("vet-build:"+t.goos+"/"+t.goarch, "go vet cannot type-check the module (incl. tests) for this target",
-					map[string]any{"output": tail(string(out), 3000)})
-			} else {
-				c.Count("vet/diagnostics-only")
-				c.D.Notes = append(c.D.Notes, fmt.Sprintf("go vet %s/%s diagnostics (not compile errors): %s", t.goos, t.goarch, strings.Join(strings.Fields(tail(string(out), 600)), " ")))
-			}
+	// go vet type-checks the test files too.  Diagnostics that are not compile
+	// errors are recorded, not violations.
+	c.D.Evaluations++
+	if w.vetErr != nil {
+		if compileError(w.vetOut) {
+			c.Violate("vet-build:linux/386", "go vet cannot type-check the module (incl. tests) for this target",
+				map[string]any{"output": tail(w.vetOut, 3000)})
 		} else {
-			c.Count("vet/ok")
+			c.Count("vet/diagnostics-only")
+			c.D.Notes = append(c.D.Notes, "go vet linux/386 diagnostics (not compile errors): "+strings.Join(strings.Fields(tail(w.vetOut, 600)), " "))
 		}
+	} else {
+		c.Count("vet/ok")
 	}
 }
 
